@@ -69,6 +69,7 @@ Definition gst_step (g : gst) (o : rop) : gst :=
                    | None => false
                    | Some _ => match o with
                                | Validate k' => if regkey_eqb k k' then true else match l with Some _ => v | None => false end
+                               | ValidateStale k' => match l with Some _ => v | None => regkey_eqb k k' end
                                | _ => match l with Some _ => v | None => false end
                                end
                    end in
